@@ -256,7 +256,8 @@ type sim struct {
 	inflate uint32 // 0 = not inflated, else the tip set by VerifC14SetHeaderTip (re-applied on restart)
 	fresh   int
 	seq     uint64
-	diverge string
+	diverge string // the ledger no longer matches the reference (set in force / tip): nothing further is judged on it
+	flag    string // a quorum violation was recorded on this path (BFS does not expand such states further)
 }
 
 var tmpDirs sync.Map
@@ -472,15 +473,15 @@ func (s *sim) call(path string, sp sigSpec, newSet []*polyenv.Acct, defect, key 
 	if out.accepted {
 		if out.v.valid < out.m {
 			r.Violation(fmt.Sprintf("accepted-below-quorum/%s/%s/%s", out.region, path, key), detail(""))
-			s.diverge = "below-quorum"
+			s.flag = "below-quorum"
 		}
 		if out.v.foreign {
 			r.Violation(fmt.Sprintf("accepted-foreign-bookkeeper/%s/%s/%s", out.region, path, key), detail(""))
-			s.diverge = "foreign"
+			s.flag = "foreign"
 		}
 		if out.v.dup {
 			r.Violation(fmt.Sprintf("accepted-duplicate-bookkeeper/%s/%s/%s", out.region, path, key), detail(""))
-			s.diverge = "dup"
+			s.flag = "dup"
 		}
 		if defect != "" {
 			r.Violation(fmt.Sprintf("accepted-defective-block/%s/%s", path, defect), detail(""))
@@ -658,8 +659,8 @@ func (w *hworld) open() *sim {
 }
 
 func (s *sim) key() string {
-	if s.diverge != "" {
-		return "DIVERGED:" + s.diverge
+	if s.diverge != "" || s.flag != "" {
+		return "DIVERGED:" + s.diverge + s.flag
 	}
 	return fmt.Sprintf("b=%d h+%d blk[%s] hdr[%s] pb[%s] ph[%s] cfg=%d f=%d", s.ch.L.GetCurrentBlockHeight(), s.hdrTip-s.inflate,
 		names(s.blkSet), names(s.hdrSet), names(s.prevBlk), names(s.prevHdr), s.blkCfgH, s.fresh)
@@ -817,7 +818,7 @@ func (w *hworld) bfs(depth, workers int) mc.Stats {
 			if !ok {
 				return hst{}, false
 			}
-			return hst{path: p, key: nk, dead: sm.diverge != ""}, true
+			return hst{path: p, key: nk, dead: sm.diverge != "" || sm.flag != ""}, true
 		},
 		Key:      func(s hst) string { return s.key },
 		MaxDepth: depth, Workers: workers, Stop: r.Expired,
